@@ -50,9 +50,9 @@ CHECKS = {
     },
     "C24": {
         "level": "exploration",
-        "text": "Seeded search over worker assignment, completion order, producer run-ahead, delivery order, process counts, path-argument order and interpreter hash seeds with sqlfluff's real ParallelRunner running on a discrete-event SimPool (real pickling, in-process and forked fresh-process workers); oracle = serial fresh-process run of the same world (violations, fixed bytes, modes, skip count, exit code). Sampling, not proof.",
+        "text": "Seeded search over worker assignment, completion order, producer run-ahead, delivery order, stragglers (one task outlasting all others), process counts, path-argument order and interpreter hash seeds with sqlfluff's real ParallelRunner running on a discrete-event SimPool (real pickling, in-process and forked fresh-process workers); oracle = serial fresh-process run of the same world (violations, fixed bytes, modes, skip count, exit code). Sampling, not proof.",
         "design_ref": "DESIGN.md §4 C24, §3.5",
-        "note": "Trusts: SimPool models multiprocessing.Pool.imap_unordered's observable contract (checked against the real pool in the thorough tier); pickle; zygote fork == fresh interpreter.",
+        "note": "Trusts: SimPool models multiprocessing.Pool.imap_unordered's observable contract (1 run in 16 quick / 6 thorough is repeated through the real multiprocessing.Pool as a fidelity cross-check that is outside digests and verdicts; a disagreement exits 2); pickle; zygote fork == fresh interpreter.",
         "technique": "deterministic simulation: seeded discrete-event scheduler replacing the multiprocessing pool, serial run as reference model",
     },
     "C18": {
@@ -64,14 +64,14 @@ CHECKS = {
     },
     "C34": {
         "level": "exploration",
-        "text": "Files straddling byte/char limits (root and nested limits) linted/fixed serially and under SimPool schedules (in-process and forked workers, skip crossing the pickle boundary); monitors on lexer/parser + disk journal decide 'never parsed, never written'; skip count and exit code compared with a reference model in every schedule.",
+        "text": "Files straddling byte/char limits (root and nested limits) linted/fixed serially and under SimPool schedules (in-process and forked workers, skip crossing the pickle boundary), with transient (n-th stat, ESTALE) and persistent (EIO) faults of the size probe; monitors on lexer/parser + disk journal decide 'never parsed, never written'; skip count and exit code compared with a reference model in every schedule.",
         "design_ref": "DESIGN.md §4 C34",
         "note": "Trusts the size model (getsize > byte limit, len(text) > char limit) written from the statement.",
         "technique": "deterministic simulation: seeded scheduler + file-seam monitors against a skip reference model",
     },
     "C32": {
         "level": "exploration",
-        "text": "Histories of lint/parse/render/fix-free operations in long-lived nodes versus the same operation alone in a fresh process with a different hash seed; read-only decided from the simulated-disk journal and a before/after snapshot (bytes, mode, inode, mtime).",
+        "text": "Histories of lint/parse/render operations in long-lived nodes (shared Linter, config caches, templater, rule packs) versus the same operation alone in a fresh process with a different hash seed, versus its other executions in the history, and - file by file - versus each file of a multi-file lint linted alone in a fresh process; read-only decided from the simulated-disk journal and a before/after snapshot (bytes, mode, inode, mtime).",
         "design_ref": "DESIGN.md §4 C32",
         "note": "Trusts zygote fork == fresh interpreter; library_path excluded (CPython writes __pycache__).",
         "technique": "deterministic simulation: process-history machine with restart/evict/chdir/clock events, fresh-process reference, disk-journal read-only monitor",
@@ -92,16 +92,16 @@ CHECKS = {
     },
     "C11": {
         "level": "exploration",
-        "text": "Stored-byte corruption (bytes undecodable in the file's encoding) x encodings/BOMs/line endings pushed through the real read->fix->write path (API and CLI, serial and SimPool); bytes outside the applied source patches must survive; files without applicable fixes must have no mutating op in the disk journal.",
+        "text": "Stored-byte corruption (bytes undecodable in the file's encoding) x encodings/BOMs/line endings/exotic line-separator characters pushed through the real read->fix->write path (API and CLI, serial and SimPool); the bytes of generated comments and string literals (text no rule may rewrite) must survive; files without applicable fixes must have no mutating op in the disk journal.",
         "design_ref": "DESIGN.md §4 C11",
-        "note": "Patches are taken from the same run's LintedFile; surrogateescape decoding makes every byte a character.",
+        "note": "sqlfluff's own source patch for an untemplated file is the whole file, so 'outside the patches' is decided on protected tokens (comment text, string-literal content) instead of patch ranges.",
         "technique": "deterministic simulation: stored-byte corruption faults at the file seam + disk-journal 'not rewritten' monitor",
     },
     "C06": {
         "level": "exploration",
-        "text": "Histories of parses in one long-lived process x buggified parse cache / option pruning / next_match fast paths (skipped on a PRNG-chosen subset of calls) x hash seeds, compared with a fresh-process default parse and a fresh-process optimisation-free parse.",
+        "text": "Histories of parses in one long-lived process (other dialects, lint+fix runs, aborted parses followed by their near twin) x buggified parse cache / option pruning (fast path skipped on a PRNG-chosen subset of calls) x hash seeds, compared with a fresh-process default parse and an optimisation-free parse; plus a file-uniform sweep of dialect fixtures parsed with and without both optimisations.",
         "design_ref": "DESIGN.md §4 C06",
-        "note": "Buggify wrappers replace module/class attributes looked up at call time; brute-force variants written from the optimisation's stated contract.",
+        "note": "Buggify wrappers replace module/class attributes looked up at call time: 'cache off' = every lookup misses, 'pruning off' = every option is tried (the two optimisations' stated contracts).",
         "technique": "deterministic simulation: buggify of parser fast paths + process-history vs fresh-process reference",
     },
 }
